@@ -519,3 +519,65 @@ fn probe_c06_relay_json_refused_after_group_written_sqlite() {
     println!("F19r groups after the refused welcome: {} {:?}", gs.len(), gs.iter().map(|g| (g.name.clone(), g.state)).collect::<Vec<_>>());
     println!("F19r pending welcomes: {}", bob.get_pending_welcomes(None).unwrap().len());
 }
+
+/// F20 candidate: an admin's commit that sets a group name longer than the receiver's storage bound (SQLite: 255 bytes) is merged by the
+/// receiver's MLS layer and only then refused by save_group in the metadata sync.
+#[test]
+fn probe_c06_long_name_commit_merged_then_refused() {
+    let alice_keys = Keys::generate();
+    let bob_keys = Keys::generate();
+    let alice = MDK::new(mdk_memory_storage::MdkMemoryStorage::with_limits(
+        mdk_memory_storage::ValidationLimits::default().with_max_group_name_length(10_000)));
+    let bob = MDK::new(mdk_sqlite_storage::MdkSqliteStorage::new_unencrypted(":memory:").unwrap());
+    let admins = vec![alice_keys.public_key()];
+    let bob_kp = create_key_package_event(&bob, &bob_keys);
+    let res = alice.create_group(&alice_keys.public_key(), vec![bob_kp], create_nostr_group_config_data(admins)).unwrap();
+    let gid = res.group.mls_group_id.clone();
+    alice.merge_pending_commit(&gid).unwrap();
+    let w = bob.process_welcome(&EventId::all_zeros(), &res.welcome_rumors[0]).unwrap();
+    bob.accept_welcome(&w).unwrap();
+    let upd = alice.update_group_data(&gid, crate::groups::NostrGroupDataUpdate::new().name("n".repeat(300))).unwrap();
+    alice.merge_pending_commit(&gid).unwrap();
+    let before = bob.get_group(&gid).unwrap().unwrap();
+    let mls_before = bob.load_mls_group(&gid).unwrap().unwrap().epoch().as_u64();
+    let r = bob.process_message(&upd.evolution_event);
+    println!("F20 process_message: {:?}", r.as_ref().map(|x| format!("{:?}", x).chars().take(80).collect::<String>()).map_err(|e| e.to_string()));
+    let after = bob.get_group(&gid).unwrap().unwrap();
+    let mls_after = bob.load_mls_group(&gid).unwrap().unwrap().epoch().as_u64();
+    println!("F20 stored epoch {} -> {}, MLS epoch {} -> {}, stored name len {}", before.epoch, after.epoch, mls_before, mls_after, after.name.len());
+    let r2 = bob.process_message(&upd.evolution_event);
+    println!("F20 retry: {:?}", r2.as_ref().map(|x| format!("{:?}", x).chars().take(80).collect::<String>()).map_err(|e| e.to_string()));
+    // can bob still read alice's next message?
+    let rumor = create_test_rumor(&alice_keys, "after the rename");
+    let ev = alice.create_message(&gid, rumor).unwrap();
+    let r3 = bob.process_message(&ev);
+    println!("F20 next message: {:?}", r3.as_ref().map(|x| format!("{:?}", x).chars().take(60).collect::<String>()).map_err(|e| e.to_string()));
+}
+
+/// Not a finding: an application message whose rumor JSON exceeds the SQLite layer's 100 KB event bound cannot be built — the NIP-44
+/// layer refuses plaintexts above 65535 bytes (create_message answers NIP44(V2(MessageTooLong))), so save_message's bounds are out of
+/// reach on the receive path.
+#[test]
+fn probe_c02_large_message_decrypted_then_refused_by_storage() {
+    let alice_keys = Keys::generate();
+    let bob_keys = Keys::generate();
+    let alice = create_test_mdk();
+    let bob = MDK::new(mdk_sqlite_storage::MdkSqliteStorage::new_unencrypted(":memory:").unwrap());
+    let admins = vec![alice_keys.public_key()];
+    let bob_kp = create_key_package_event(&bob, &bob_keys);
+    let res = alice.create_group(&alice_keys.public_key(), vec![bob_kp], create_nostr_group_config_data(admins)).unwrap();
+    let gid = res.group.mls_group_id.clone();
+    alice.merge_pending_commit(&gid).unwrap();
+    let w = bob.process_welcome(&EventId::all_zeros(), &res.welcome_rumors[0]).unwrap();
+    bob.accept_welcome(&w).unwrap();
+    let rumor = create_test_rumor(&alice_keys, &"m".repeat(120 * 1024));
+    let ev = alice.create_message(&gid, rumor).unwrap();
+    let r = bob.process_message(&ev);
+    println!("F21 process_message: {:?}", r.as_ref().map(|x| format!("{:?}", x).chars().take(80).collect::<String>()).map_err(|e| e.to_string()));
+    println!("F21 stored messages: {}", bob.get_messages(&gid, None).unwrap().len());
+    let r2 = bob.process_message(&ev);
+    println!("F21 retry: {:?}", r2.as_ref().map(|x| format!("{:?}", x).chars().take(80).collect::<String>()).map_err(|e| e.to_string()));
+    let ev2 = alice.create_message(&gid, create_test_rumor(&alice_keys, "small one")).unwrap();
+    let r3 = bob.process_message(&ev2);
+    println!("F21 next message: {:?}", r3.as_ref().map(|x| format!("{:?}", x).chars().take(40).collect::<String>()).map_err(|e| e.to_string()));
+}
